@@ -626,3 +626,170 @@ Proof.
     + apply (finish_spec q h x _ false); auto.
     + apply (finish_spec q h x _ true); auto. right. split; [reflexivity|]. exists p0. apply OT.
 Qed.
+
+(* ---------- whole runs: observation traces ---------- *)
+Definition is_panic (o : out) : bool := match o with OPanic _ => true | _ => false end.
+
+(* what one observed reaction must satisfy w.r.t. the raw history *)
+Definition step_obs (q : option N) (h : list vote) (x : vote) (o : out) : Prop :=
+  let h' := h ++ [x] in
+  match o with
+  | OPanic t =>
+      (t = "eq"%string /\ reaches q (spec_eqw h') = true) \/
+      (t = "two"%string /\ reaches q (spec_eqw h') = false /\
+       exists p p', p <> p' /\ reaches q (spec_tally h' p) = true /\ reaches q (spec_tally h' p') = true)
+  | ONone =>
+      reaches q (spec_eqw h') = false /\ no_two q h' /\
+      ((forall p, reaches q (spec_tally h' p) = false) \/ (exists p, reaches q (spec_tally h p) = true))
+  | OThreshold p b =>
+      reaches q (spec_eqw h') = false /\ no_two q h' /\ reaches q (spec_tally h' p) = true /\
+      (forall p', reaches q (spec_tally h p') = false) /\ bundle_valid q h' p b
+  end.
+Definition snap_rel (h' : list vote) (o : out) (snap : option state) : Prop :=
+  match snap with
+  | Some st => is_panic o = false /\ Inv h' st
+  | None => is_panic o = true
+  end.
+
+(* an observation trace for the votes l received after history h0 *)
+Definition trace_ok (q : option N) (h0 l : list vote) (obs : list (out * option state)) : Prop :=
+  (forall i o snap, nth_error obs i = Some (o, snap) ->
+     exists x, nth_error l i = Some x /\ step_obs q (h0 ++ firstn i l) x o /\
+               snap_rel (h0 ++ firstn i l ++ [x]) o snap) /\
+  (forall i o snap, nth_error obs i = Some (o, snap) -> is_panic o = true -> S i = List.length obs) /\
+  ((forall o, In o (map fst obs) -> is_panic o = false) -> List.length obs = List.length l).
+
+Lemma trace_ok_nil q h0 : trace_ok q h0 [] [].
+Proof.
+  split; [|split].
+  - intros [|i] o snap H; discriminate.
+  - intros [|i] o snap H; discriminate.
+  - reflexivity.
+Qed.
+
+(* consing one good step in front of a good trace *)
+Lemma trace_ok_cons q h0 x l o snap obs :
+  step_obs q h0 x o -> snap_rel (h0 ++ [x]) o snap ->
+  (if is_panic o then obs = [] else trace_ok q (h0 ++ [x]) l obs) ->
+  trace_ok q h0 (x :: l) ((o, snap) :: obs).
+Proof.
+  intros SO SR T. split; [|split].
+  - intros [|i] o' snap' H; cbn [nth_error] in H.
+    + inversion H; subst. exists x. cbn [nth_error firstn app]. rewrite app_nil_r. auto.
+    + destruct (is_panic o); [subst obs; destruct i; discriminate|].
+      destruct T as [T _]. destruct (T i o' snap' H) as [y [Hy [A B]]]. exists y.
+      cbn [nth_error firstn]. split; [exact Hy|].
+      replace (h0 ++ x :: firstn i l) with ((h0 ++ [x]) ++ firstn i l) by (rewrite <- app_assoc; reflexivity).
+      split; [exact A|]. replace (h0 ++ (x :: firstn i l) ++ [y]) with ((h0 ++ [x]) ++ firstn i l ++ [y]); [exact B|].
+      rewrite <- app_assoc. reflexivity.
+  - intros [|i] o' snap' H P; cbn [nth_error] in H.
+    + inversion H; subst. rewrite P in T. subst obs. reflexivity.
+    + destruct (is_panic o); [subst obs; destruct i; discriminate|].
+      destruct T as [_ [T _]]. cbn [List.length]. f_equal. eapply T; eauto.
+  - intros NP. cbn [List.length]. f_equal.
+    assert (is_panic o = false) as E by (apply NP; left; reflexivity). rewrite E in T.
+    destruct T as [_ [_ T]]. apply T. intros o' Ho'. apply NP. right. exact Ho'.
+Qed.
+
+Lemma step_post_obs q h x st' o : step_post q h x st' o ->
+  step_obs q h x o /\ snap_rel (h ++ [x]) o (if is_panic o then None else Some st') /\
+  (is_panic o = false -> Good q (h ++ [x]) st').
+Proof.
+  destruct o as [|p b|t]; cbn [step_post step_obs snap_rel is_panic].
+  - intros [G D]. pose proof G as [I [HE NT]].
+    split; [split; [exact HE|split; [exact NT|exact D]]|]. split; [split; [reflexivity|exact I]|]. intros _. exact G.
+  - intros [G [RT [B BV]]]. pose proof G as [I [HE NT]].
+    split; [split; [exact HE|split; [exact NT|split; [exact RT|split; [exact B|exact BV]]]]|].
+    split; [split; [reflexivity|exact I]|]. intros _. exact G.
+  - intros H. split; [exact H|]. split; [reflexivity|discriminate].
+Qed.
+
+Lemma run_trace_ok q : reaches q 0 = false -> forall l h st, Good q h st -> wf_votes (h ++ l) ->
+  trace_ok q h l (run q st l).
+Proof.
+  intros R0. induction l as [|x l IH]; intros h st G W; cbn [run]; [apply trace_ok_nil|].
+  assert (W1 : wf_votes (h ++ [x])) by (apply (wf_votes_prefix _ l); rewrite <- app_assoc; exact W).
+  pose proof (handle_step q h st x R0 G W1) as SP. destruct (handle q st x) as [st1 o1]. cbn [fst snd] in SP.
+  destruct (step_post_obs _ _ _ _ _ SP) as [SO [SR GG]].
+  destruct o1 as [|p b|t]; cbn [is_panic] in SR, GG.
+  - apply trace_ok_cons; auto. cbn [is_panic]. apply IH; [apply GG; reflexivity|rewrite <- app_assoc; exact W].
+  - apply trace_ok_cons; auto. cbn [is_panic]. apply IH; [apply GG; reflexivity|rewrite <- app_assoc; exact W].
+  - apply trace_ok_cons; auto.
+Qed.
+
+Lemma Good_init q : reaches q 0 = false -> Good q [] init.
+Proof.
+  intros R0. split; [apply Inv_init|]. split; [exact R0|]. intros p p' R. cbn in R. congruence.
+Qed.
+
+(* ---------- outputs of the model = specified outputs ---------- *)
+Lemma step_post_expected q h x st st' o : Good q h st -> step_post q h x st' o -> out_kind o = expected q h x.
+Proof.
+  intros [_ [HE NT]]. destruct o as [|p b|t]; cbn [step_post out_kind].
+  - intros [[_ [HE' NT']] [D|[p0 D]]]; symmetry.
+    + apply expected_none_below; auto.
+    + eapply expected_none_already; eauto.
+  - intros [[_ [HE' NT']] [RT [B _]]]. symmetry. apply expected_thr; auto.
+  - intros [[-> RE]|[-> [HE' [p [p' [Hne [R R']]]]]]]; symmetry.
+    + apply expected_eq; auto.
+    + eapply expected_two; eauto.
+Qed.
+
+Lemma run_kinds q : reaches q 0 = false -> forall l h st, Good q h st -> wf_votes (h ++ l) ->
+  map (fun e => out_kind (fst e)) (run q st l) = spec_outs q h l.
+Proof.
+  intros R0. induction l as [|x l IH]; intros h st G W; cbn [run spec_outs]; [reflexivity|].
+  assert (W1 : wf_votes (h ++ [x])) by (apply (wf_votes_prefix _ l); rewrite <- app_assoc; exact W).
+  pose proof (handle_step q h st x R0 G W1) as SP. destruct (handle q st x) as [st1 o1]. cbn [fst snd] in SP.
+  rewrite <- (step_post_expected q h x st st1 o1 G SP).
+  destruct (step_post_obs _ _ _ _ _ SP) as [_ [_ GG]].
+  destruct o1 as [|p b|t]; cbn [map fst out_kind is_panic] in *; try reflexivity.
+  - f_equal. apply IH; [apply GG; reflexivity|rewrite <- app_assoc; exact W].
+  - f_equal. apply IH; [apply GG; reflexivity|rewrite <- app_assoc; exact W].
+Qed.
+
+(* ---------- consequences of trace_ok (for the model's trace and for observed traces) ---------- *)
+Lemma firstn_snoc_nth {A} (l : list A) i x : nth_error l i = Some x -> firstn (S i) l = firstn i l ++ [x].
+Proof.
+  revert i. induction l as [|a l IH]; intros [|i] H; cbn [nth_error] in H; try discriminate.
+  - inversion H; subst. reflexivity.
+  - cbn [firstn app]. f_equal. apply IH. exact H.
+Qed.
+
+Lemma count_spec h st p : Inv h st -> wf_votes h -> count st p = spec_tally h p.
+Proof.
+  intros I W. unfold count. rewrite (inv_cnt _ _ I), (inv_eqc _ _ I). apply wadd_small.
+  pose proof (tally_le_total h p W). pose proof (wf_total h W). unfold spec_tally in *. lia.
+Qed.
+
+(* tallies are never lowered by later votes *)
+Lemma spec_tally_mono_app h l p : wf_votes (h ++ l) -> spec_tally h p <= spec_tally (h ++ l) p.
+Proof.
+  induction l as [|x l IH] using rev_ind; intros W; [rewrite app_nil_r; lia|].
+  rewrite app_assoc in W |- *. pose proof (spec_tally_mono (h ++ l) x p W).
+  specialize (IH (wf_votes_prefix _ _ W)). lia.
+Qed.
+
+Lemma firstn_le_split {A} (l : list A) i j : (i <= j)%nat -> exists r, firstn j l = firstn i l ++ r.
+Proof.
+  intros L. exists (firstn (j - i) (skipn i l)).
+  replace j with (i + (j - i))%nat at 1 by lia. apply firstn_add.
+Qed.
+
+Lemma trace_ok_threshold_once q l obs : wf_votes l -> trace_ok q [] l obs ->
+  forall i j p b s p' b' s', nth_error obs i = Some (OThreshold p b, s) ->
+    nth_error obs j = Some (OThreshold p' b', s') -> i = j.
+Proof.
+  intros W [T _] i j p b s p' b' s' Hi Hj.
+  destruct (T _ _ _ Hi) as [x [Hx [Si _]]]. destruct (T _ _ _ Hj) as [y [Hy [Sj _]]].
+  cbn [app step_obs] in Si, Sj. rewrite <- (firstn_snoc_nth _ _ _ Hx) in Si. rewrite <- (firstn_snoc_nth _ _ _ Hy) in Sj.
+  destruct Si as [_ [_ [Ri [Bi _]]]]. destruct Sj as [_ [_ [Rj [Bj _]]]].
+  assert (M : forall a c pp, (S a <= c)%nat -> reaches q (spec_tally (firstn (S a) l) pp) = true ->
+              reaches q (spec_tally (firstn c l) pp) = true).
+  { intros a c pp L R. destruct (firstn_le_split l (S a) c L) as [r E]. rewrite E.
+    eapply reaches_mono; [exact R|]. apply spec_tally_mono_app. rewrite <- E.
+    apply (wf_votes_prefix _ (skipn c l)). rewrite firstn_skipn. exact W. }
+  destruct (Nat.lt_trichotomy i j) as [L|[E|L]]; [|exact E|].
+  - exfalso. pose proof (M i j p L Ri) as C. rewrite Bj in C. discriminate.
+  - exfalso. pose proof (M j i p' L Rj) as C. rewrite Bi in C. discriminate.
+Qed.
